@@ -136,6 +136,7 @@ type C06Stats struct {
 	Aborted      int            `json:"steps_aborted_by_injected_callee_failure"`
 	Fuel         int            `json:"steps_cut_by_fuel"`
 	Pooled       int            `json:"values_pooled"`
+	Witnessed    int            `json:"values_handed_to_callee_and_watched"`
 	TypesSeen    map[string]int `json:"pooled_value_types"`
 	Samples      []interface{}  `json:"samples"`
 }
@@ -155,6 +156,7 @@ func (s *C06Stats) Merge(raw json.RawMessage) error {
 	s.Aborted += o.Aborted
 	s.Fuel += o.Fuel
 	s.Pooled += o.Pooled
+	s.Witnessed += o.Witnessed
 	for k, v := range o.OpKinds {
 		s.OpKinds[k] += v
 	}
@@ -302,6 +304,55 @@ var c06Seeds = []string{
 	"[\"x\", \"y\"]", "{name: \"n\", call: m{1}}", "(1:3).A", "\"#{1}x\"", "1.try./(0).err", "\"a\".try.{|x| raise ValueErr.new(\"v\")}.err", "5.try.nosuch.err",
 }
 
+// hasCycle reports a container that is reachable from itself (depth-first, linear).
+func hasCycle(o object.PanObject) bool {
+	onPath := map[object.PanObject]bool{}
+	done := map[object.PanObject]bool{}
+	var visit func(o object.PanObject) bool
+	visit = func(o object.PanObject) bool {
+		var kids []object.PanObject
+		switch v := o.(type) {
+		case *object.PanArr:
+			kids = v.Elems
+		case *object.PanObj:
+			if v.Pairs != nil {
+				for _, p := range *v.Pairs {
+					kids = append(kids, p.Value)
+				}
+			}
+		case *object.PanMap:
+			if v.Pairs != nil {
+				for _, p := range *v.Pairs {
+					kids = append(kids, p.Key, p.Value)
+				}
+			}
+			if v.NonHashablePairs != nil {
+				for _, p := range *v.NonHashablePairs {
+					kids = append(kids, p.Key, p.Value)
+				}
+			}
+		default:
+			return false
+		}
+		if onPath[o] {
+			return true
+		}
+		if done[o] {
+			return false
+		}
+		onPath[o] = true
+		for _, k := range kids {
+			if k != nil && visit(k) {
+				return true
+			}
+		}
+		onPath[o] = false
+		done[o] = true
+		return false
+	}
+	return visit(o)
+}
+
 // tooDeep reports nesting deeper than max (a cyclic value - possible only when
 // immutability is already broken - is reported as too deep instead of recursing for ever).
 func tooDeep(o object.PanObject, max int) bool {
@@ -426,16 +477,57 @@ func (c *c06Check) runHist(seed, run uint64, t *tape.Tape, s *C06Stats, lines *[
 	var pool []entry
 	var log []string
 	nslot := 0
+	// values the simulated callee was handed (receiver/argument/`\0`/`\_` of the function
+	// that called it) with their fingerprint at that moment: they exist from then on, so
+	// they are under the oracle like pooled values, also while the same step continues
+	var seen []entry
+	var seenChanged *entry
+	var seenNow string
+	checkSeen := func() {
+		for i := range seen {
+			if seenChanged != nil {
+				return
+			}
+			if now := c06Fingerprint(seen[i].val, c.builtins, 0); now != seen[i].fp {
+				e := seen[i]
+				seenChanged, seenNow = &e, now
+			}
+		}
+	}
+	witness := func(seq int, args []object.PanObject) {
+		checkSeen()
+		for _, a := range args {
+			tag := typeTag(a)
+			if tag == "iter" || tag == "other" || tag == "builtin" || !poolable(a) {
+				continue
+			}
+			dup := false
+			for i := range seen {
+				if seen[i].val == a {
+					dup = true
+				}
+			}
+			if dup {
+				continue
+			}
+			if len(seen) >= 48 {
+				seen = seen[1:]
+			}
+			seen = append(seen, entry{name: fmt.Sprintf("argument of callee invocation %d", seq), val: a, fp: c06Fingerprint(a, c.builtins, 0)})
+			s.Witnessed++
+		}
+	}
 	evalLine := func(src string, plan map[int]harness.Ret) (harness.Result, bool) {
 		prog, err := harness.Parse(src)
 		if err != nil {
 			return harness.Result{}, false
 		}
+		cal := &harness.Callee{Plan: plan, Limit: 5000, OnCall: witness}
 		if c.evalHook != nil {
-			return c.evalHook(prog, &harness.Callee{Plan: plan, Limit: 5000}, env), true
+			return c.evalHook(prog, cal, env), true
 		}
 		seam.SetFuel(200000)
-		r := c.it.RunIn(prog, &harness.Callee{Plan: plan, Limit: 5000}, env)
+		r := c.it.RunIn(prog, cal, env)
 		seam.SetFuel(0)
 		return r, true
 	}
@@ -519,17 +611,21 @@ func (c *c06Check) runHist(seed, run uint64, t *tape.Tape, s *C06Stats, lines *[
 	}
 	callee := func() string {
 		nslot++
-		switch t.Pick(3, 2, 2, 1, 1) {
+		switch t.Pick(3, 2, 2, 1, 1, 1, 1) {
 		case 0:
-			return fmt.Sprintf("{|x| S(%d); x}", nslot)
+			return fmt.Sprintf("{|x| S(%d, x, \\0, \\_); x}", nslot)
 		case 1:
-			return fmt.Sprintf("{|x, y| S(%d); y}", nslot)
+			return fmt.Sprintf("{|x, y| S(%d, x, y, \\0); y}", nslot)
 		case 2:
-			return fmt.Sprintf("{|x| S(%d); true}", nslot)
+			return fmt.Sprintf("{|x| S(%d, x); true}", nslot)
 		case 3:
-			return fmt.Sprintf("{|x| S(%d); nil}", nslot)
+			return fmt.Sprintf("{|x| S(%d, x); nil}", nslot)
+		case 4:
+			return fmt.Sprintf("{|x, y| S(%d, x, y); x <=> y}", nslot)
+		case 5:
+			return fmt.Sprintf("{|| S(%d, \\0, \\_); \\1}", nslot)
 		default:
-			return fmt.Sprintf("{|x, y| S(%d); x <=> y}", nslot)
+			return fmt.Sprintf("{|x| S(%d, x); [x]}", nslot)
 		}
 	}
 	nsteps := 5 + t.Intn(26)
@@ -770,6 +866,22 @@ func (c *c06Check) runHist(seed, run uint64, t *tape.Tape, s *C06Stats, lines *[
 			}
 		}
 		// the oracle: every value that existed before the step is unchanged
+		checkSeen()
+		if seenChanged != nil {
+			return []Viol{{Prop: "C06", Run: run, Seed: seed, Tape: append([]uint32(nil), t.Rec...), Engine: "hist",
+				Signature: fmt.Sprintf("C06/%s#%s:%s/%s/handed-to-callee", typeTag(recv.val), opKind, opName, typeTag(seenChanged.val)),
+				Derived:   map[string]interface{}{"history": append([]string(nil), log...), "changed_value": seenChanged.name},
+				Expected:  map[string]interface{}{"fingerprint_when_handed_over": clipStr(seenChanged.fp, 1200)},
+				Actual:    map[string]interface{}{"fingerprint_later": clipStr(seenNow, 1200), "step_result": describeResult(r)}}}
+		}
+		if r.Err == nil && r.Panic == "" && r.Obj != nil && hasCycle(r.Obj) {
+			// a value that contains itself cannot be built from immutable values
+			return []Viol{{Prop: "C06", Run: run, Seed: seed, Tape: append([]uint32(nil), t.Rec...), Engine: "hist",
+				Signature: fmt.Sprintf("C06/%s#%s:%s/cyclic-result", typeTag(recv.val), opKind, opName),
+				Derived:   map[string]interface{}{"history": append([]string(nil), log...)},
+				Expected:  map[string]interface{}{"result": "a finite value (containers of immutable values cannot contain themselves)"},
+				Actual:    map[string]interface{}{"result": "the step's result is reachable from itself"}}}
+		}
 		for i := range pool {
 			now := c06Fingerprint(pool[i].val, c.builtins, 0)
 			s.Fingerprints++
@@ -821,21 +933,22 @@ func describeResult(r harness.Result) string {
 func (c *c06Check) Evidence(st Stats, tier string) (map[string]interface{}, []string) {
 	s := st.(*C06Stats)
 	cov := map[string]interface{}{
-		"evaluations":           s.Steps,
-		"distinct_nontrivial":   len(s.PropKeys),
-		"rule":                  "one case = one step of a history: a tape-chosen operation (property found by reflection on the receiver's prototype chain with pool/literal arguments and optional callee, infix/prefix operator, index/slice, literal with `*`/`**` of pool values, one of 9 chain contexts with the simulated callee, bear/bro/new/digest/try) applied to a pool of up to 28 live values, with the callee raising at a tape-chosen invocation in a third of the callee-bearing steps; distinct_nontrivial = distinct (receiver type, operation) pairs exercised",
-		"samples":               s.Samples,
-		"histories":             s.Histories,
-		"steps":                 s.Steps,
-		"fingerprints_taken":    s.Fingerprints,
-		"op_kinds":              s.OpKinds,
-		"receiver_op_pairs":     s.PropKeys,
-		"steps_ending_in_error": s.Errors,
-		"fault_kinds_fired":     map[string]int{"callee_raise_aborting_an_operation": s.Aborted, "evaluation_cut_by_fuel": s.Fuel},
-		"values_pooled":         s.Pooled,
-		"pooled_value_types":    s.TypesSeen,
-		"simulated_time":        "none; steps = operations applied",
-		"real_vs_stub":          realVsStub,
+		"evaluations":                         s.Steps,
+		"distinct_nontrivial":                 len(s.PropKeys),
+		"rule":                                "one case = one step of a history: a tape-chosen operation (property found by reflection on the receiver's prototype chain with pool/literal arguments and optional callee, infix/prefix operator, index/slice, literal with `*`/`**` of pool values, one of 9 chain contexts with the simulated callee, bear/bro/new/digest/try) applied to a pool of up to 28 live values, with the callee raising at a tape-chosen invocation in a third of the callee-bearing steps; distinct_nontrivial = distinct (receiver type, operation) pairs exercised",
+		"samples":                             s.Samples,
+		"histories":                           s.Histories,
+		"steps":                               s.Steps,
+		"fingerprints_taken":                  s.Fingerprints,
+		"op_kinds":                            s.OpKinds,
+		"receiver_op_pairs":                   s.PropKeys,
+		"steps_ending_in_error":               s.Errors,
+		"fault_kinds_fired":                   map[string]int{"callee_raise_aborting_an_operation": s.Aborted, "evaluation_cut_by_fuel": s.Fuel},
+		"values_pooled":                       s.Pooled,
+		"values_handed_to_callee_and_watched": s.Witnessed,
+		"pooled_value_types":                  s.TypesSeen,
+		"simulated_time":                      "none; steps = operations applied",
+		"real_vs_stub":                        realVsStub,
 	}
 	if len(s.Samples) == 0 {
 		cov["samples"] = []interface{}{"(none)"}
